@@ -210,7 +210,8 @@ def main(tier: str, seed: int, replay: str | None, runs: int | None) -> int:
                                                                   and r["violation"]["signature"].startswith("same-"))},
         "known_findings_reproduced": sorted(hit), "violation_signatures": sorted(new),
     }
-    simkit.write_evidence(ID, tier, seed, LEVEL, coverage, ASSUMPTIONS, wall_s, len(new))
+    if not os.environ.get("VERIF_NO_EVIDENCE"):
+        simkit.write_evidence(ID, tier, seed, LEVEL, coverage, ASSUMPTIONS, wall_s, len(new))
     print(f"{ID} {tier}: configurations={len(results)} interpreters={len(results) * 3} "
           f"nontrivial-distinct={len(distinct)} violations={len(new)} known={len(hit)} wall={wall_s:.1f}s")
     return 1 if new else 0
